@@ -16,6 +16,7 @@ open RunLimit Drv
   for `i`; applies `gc i` when the model still has one (must be enabled).
 * `drain` — like `settle` but answers only `ok`.
 * `show` — print the state.
+* `reset` — back to the empty runtime (several scenarios in one batch).
 -/
 namespace Drv.RunLimit
 
@@ -133,6 +134,7 @@ def step (s : Sched) (line : String) : Sched × String :=
     let s' := s.settle (fuelOf s)
     (s', if s'.ready.isEmpty then "ok" else "UNSETTLED")
   | ["show"] => (s, showWorld s.w)
+  | ["reset"] => ({}, "ok")
   | _ => (s, "bad-op")
 
 end Drv.RunLimit
